@@ -274,27 +274,28 @@ func (c *Ctx) Finish() int {
 		expl += " NOT DECIDED: " + c.NotDecided
 	}
 	cov := map[string]interface{}{
-		"explanation":         expl,
-		"evaluations":         len(c.Obls),
-		"distinct_nontrivial": len(distinct),
-		"rule":                "one evaluation = one rule instance (rule + construct) examined on the SSA/type-checked program of /repo; distinct = distinct (rule, construct) keys; every instance carries a non-vacuous obligation (rules with no instance fail their floor)",
-		"obligations":         len(c.Obls),
-		"discharged":          disch,
-		"samples":             samples,
-		"rules":               c.Rules,
-		"exceptions":          c.Exceptions,
-		"known_findings":      knownHit,
-		"stale_known":         stale,
-		"findings":            fs,
-		"notes":               c.Notes,
-		"functions_analysed":  len(c.P.ModFuncs),
-		"packages":            len(c.P.Pkgs),
-		"packages_with_deps":  len(c.P.All),
-		"load_s":              c.P.LoadS,
-		"ssa_s":               c.P.SSAS,
-		"callgraph_s":         c.P.CGS,
-		"exhaustive":          true,
+		"explanation":                     expl,
+		"evaluations":                     len(c.Obls),
+		"distinct_nontrivial":             len(distinct),
+		"rule":                            "one evaluation = one rule instance (rule + construct) examined on the SSA/type-checked program of /repo; distinct = distinct (rule, construct) keys; every instance carries a non-vacuous obligation (rules with no instance fail their floor)",
+		"obligations":                     len(c.Obls),
+		"discharged":                      disch,
+		"samples":                         samples,
+		"rules":                           c.Rules,
+		"exceptions":                      c.Exceptions,
+		"known_findings":                  knownHit,
+		"stale_known":                     stale,
+		"findings":                        fs,
+		"notes":                           c.Notes,
+		"functions_analysed":              len(c.P.ModFuncs),
+		"packages":                        len(c.P.Pkgs),
+		"packages_with_deps":              len(c.P.All),
+		"load_s":                          c.P.LoadS,
+		"ssa_s":                           c.P.SSAS,
+		"callgraph_s":                     c.P.CGS,
+		"exhaustive":                      true,
 		"anchors_resolved_by_fingerprint": c.P.Renames,
+		"normalised":                      c.P.Norm, // fresh helpers analysed inlined into their callers (internal/norm)
 	}
 	for k, v := range c.Extra {
 		cov[k] = v
